@@ -60,6 +60,7 @@ func c06Body(r *Run) {
 	for i := 0; i < nDec; i++ {
 		rig.Router.AddSubscriberDecorators(message.MessageTransformSubscriberDecorator(func(m *message.Message) {}))
 	}
+	earlyClose := false
 	var ev int64
 	tick := func() int64 { ev++; return ev }
 	var invs []*c6Inv
@@ -90,7 +91,16 @@ func c06Body(r *Run) {
 		hs = append(hs, h)
 		r.Describe("%s: durations %v, %d in flight", h.name, h.dur, h.sub.Lanes)
 	}
-	r.Describe("transport gochannel=%v, %d subscriber decorators, CloseTimeout=%v, %d concurrent closers (delays %v), injected Close before step %d", useGoChannel, nDec, closeTimeout, nClosers, closerDelay, inj)
+	// one run in eight: the Subscribe of one handler fails, so Run returns an error while the other handlers may already
+	// be working; a following Close must still not return nil while they do
+	subscribeFails := -1
+	if !useGoChannel && nH > 1 && t.Chance(1, 8) {
+		subscribeFails = t.Int(nH)
+		hs[subscribeFails].sub.SubscribeErrAt = 1
+		earlyClose = true
+		r.Fault("subscribe-error")
+	}
+	r.Describe("transport gochannel=%v, %d subscriber decorators, CloseTimeout=%v, %d concurrent closers (delays %v), injected Close before step %d, Subscribe of handler %d fails", useGoChannel, nDec, closeTimeout, nClosers, closerDelay, inj, subscribeFails)
 	r.Param("inject_step", inj)
 
 	for _, h := range hs {
@@ -127,7 +137,6 @@ func c06Body(r *Run) {
 		return out
 	}
 	runInProgressAtReturn := -1
-	earlyClose := false
 	doClose := func(who string) {
 		c := &c6Close{who: who, inv: tick(), invAt: r.Sim.Now()}
 		closes = append(closes, c)
@@ -185,8 +194,9 @@ func c06Body(r *Run) {
 			}
 		}
 		if earlyClose {
+			// a Close before the router runs (or after Run failed) still must not claim a graceful close while
+			// handlers run: the nil-return rules below apply; what Run does afterwards is outside the property
 			r.Probe("close-before-running")
-			return
 		}
 		// "returns an error instead of hanging": no call takes (noticeably) longer than CloseTimeout of simulated time
 		if r.Params["clock_jumps"] == 0 {
@@ -231,14 +241,14 @@ func c06Body(r *Run) {
 					}
 				}
 			}
-			if runInProgressAtReturn > 0 {
+			if runInProgressAtReturn > 0 && !earlyClose {
 				r.Fail("C06.R5", "Router.Run returned while handler invocations were still in progress although Close returned nil", "%d in progress", runInProgressAtReturn)
 			}
 		}
-		if len(closes) > 0 && !rig.RunReturned {
+		if len(closes) > 0 && !rig.RunReturned && !earlyClose {
 			r.Fail("C06.R5", "Router.Run did not return after Close", "")
 		}
-		if len(closes) > 0 && !useGoChannel {
+		if len(closes) > 0 && !useGoChannel && !earlyClose {
 			for _, h := range hs {
 				if len(h.sub.Subscribes) == 0 {
 					continue // never started
@@ -268,10 +278,12 @@ func c06Body(r *Run) {
 		}
 	})
 
+	runDone := make(chan struct{})
 	go func() {
 		pv, pan := Call(func() { rig.RunErr = rig.Router.Run(rig.ctx) })
 		rig.RunPanic = pv
 		rig.RunReturned = true
+		close(runDone)
 		runInProgressAtReturn = len(running())
 		if (pan || rig.RunErr != nil) && !earlyClose {
 			r.Fail("C06.R5", "Router.Run failed", "%v %v", rig.RunErr, pv)
@@ -291,7 +303,10 @@ func c06Body(r *Run) {
 	for i := 0; i < nClosers; i++ {
 		i := i
 		go func() {
-			<-rig.Router.Running()
+			select {
+			case <-rig.Router.Running():
+			case <-runDone: // Run failed during start-up
+			}
 			time.Sleep(closerDelay[i])
 			doClose(fmt.Sprintf("closer%d", i))
 		}()
